@@ -191,11 +191,16 @@ def run(res, tier, seed, broken_model):
         eb, pb = build(rnd, b)
         ea2, pa2 = build(rnd, a)
         stmts = prelude + [("set", "va", ea), ("set", "vb", eb), ("set", "va2", ea2),
+                           # value arms whose candidate is the EXPRESSION itself (its own static type and tag), alone and after a
+                           # non-matching candidate
+                           ("set", "m1", ("match", V("va"), [("val", [eb], ("block", [I(1)])), ("other", ("block", [I(0)]))])),
+                           ("set", "m2", ("match", ea2, [("val", [("s", "no such value"), eb], ("block", [I(1)])), ("other", ("block", [I(0)]))])),
                            ("tuple", [("bin", "eq", V("va"), V("vb")), ("bin", "ne", V("va"), V("vb")),
                                       ("bin", "eq", V("vb"), V("va")),
                                       ("call", V("eqany"), [V("va"), V("vb")]), ("call", V("neany"), [V("va"), V("vb")]),
                                       ("call", V("armany"), [V("va"), V("vb")]),
-                                      ("bin", "eq", V("va"), V("va2")), ("bin", "eq", V("va"), V("va"))])]
+                                      ("bin", "eq", V("va"), V("va2")), ("bin", "eq", V("va"), V("va")),
+                                      V("m1"), V("m2")])]
         progs.append(stmts)
         metas.append((a, b, pa, pb, pa2))
     recs = P.run_programs(progs, broken_model=broken_model)
@@ -209,7 +214,8 @@ def run(res, tier, seed, broken_model):
         e = content_eq(a, b)
         refl = content_eq(a, a)
         t = lambda x: "true" if x else "false"
-        want = "(tup %s %s %s %s %s (i %d) %s %s)" % (t(e), t(not e), t(content_eq(b, a)), t(e), t(not e), 1 if e else 0, t(refl), t(refl))
+        want = "(tup %s %s %s %s %s (i %d) %s %s (i %d) (i %d))" % (t(e), t(not e), t(content_eq(b, a)), t(e), t(not e), 1 if e else 0, t(refl), t(refl),
+                                                                      1 if e else 0, 1 if e else 0)
         res.count("equal-pairs" if e else "unequal-pairs")
         if r.ivalue != want:
             res.violation("equality is not by content: `%s` gives %s, content equality gives %s (provenance %s vs %s / %s)" %
